@@ -35,7 +35,7 @@ Definition same_kind (l : list skey) : bool :=
 (* the operators sorted() may hand to s.operator *)
 Inductive sort_op := SLt | SGt.
 Definition sort_op_of (name : string) : option sort_op :=
-  if String.eqb name "LessThan" then Some SLt else if String.eqb name "GreaterThan" then Some SGt else None.
+  if String.eqb name "LessThan"%string then Some SLt else if String.eqb name "GreaterThan"%string then Some SGt else None.
 Definition key_less (o : sort_op) (a b : skey) : bool :=
   match o with SLt => key_lt a b | SGt => key_lt b a end.
 
